@@ -119,6 +119,10 @@ Inductive candset := FInit | FAll.                   (* the candidate's names: g
 Inductive reqset := ReqInit | ReqAll.                (* required names: chain(extra_args, init_args) / .., non_init_args) *)
 Inductive cmpop := CGe | CGt | CEq | CLe.            (* child_init_field_names <op> req_init_field_names *)
 Inductive pick := PickFirst | PickLast.              (* for child in derived: if ..: return  /  over reversed(derived) *)
+Inductive fwdrule := FwdDataclassNotNone | FwdNever. (* decode_field: drop_extra_fields is handed to the decoder of a
+                                                        dataclass-typed field when it is not None  /  never *)
+(* the tests of get_decoding_fn, in source order *)
+Inductive dkind := KRegistered | KDataclass | KAny | KDict | KSet | KTuple | KList | KUnion | KEnum | KTypeVar | KLiteral.
 Inductive droprule := DropNotDis | DropDis.          (* drop_extra_fields = not cls.decode_into_subclasses  /  without `not` *)
 
 (* first error (left to right) or all the values *)
@@ -147,17 +151,17 @@ Fixpoint collect (fs : list fdecl) (dec : list (string * res value)) : res (list
   end.
 
 (* cls(..init_args) then setattr for the init=False fields that were in the dict (the others keep their defaults):
-   a missing required field is a TypeError, re-raised as RuntimeError *)
-Fixpoint fill (fs : list fdecl) (present : list (string * value)) : res vfields :=
+   a missing required field is a TypeError, re-raised as `err` (Gen: the class raised by the except TypeError handler) *)
+Fixpoint fill (err : string) (fs : list fdecl) (present : list (string * value)) : res vfields :=
   match fs with
   | [] => Ok VNil
   | f :: r => match (match assoc (f_name f) present with Some v => Some v | None => f_default f end) with
-              | None => Err (Raise "RuntimeError")
-              | Some v => match fill r present with Err e => Err e | Ok vs => Ok (VCons (f_name f) v vs) end
+              | None => Err (Raise err)
+              | Some v => match fill err r present with Err e => Err e | Ok vs => Ok (VCons (f_name f) v vs) end
               end
   end.
-Definition construct (c : cdecl) (present : list (string * value)) : res value :=
-  match fill (c_fields c) present with Err e => Err e | Ok vs => Ok (VObj (c_name c) vs) end.
+Definition construct (err : string) (c : cdecl) (present : list (string * value)) : res value :=
+  match fill err (c_fields c) present with Err e => Err e | Ok vs => Ok (VObj (c_name c) vs) end.
 
 Section WithFacts.
   Variable TYPE_KEY : string.          (* Gen: DC_TYPE_KEY *)
@@ -170,6 +174,14 @@ Section WithFacts.
   Variable dis_absent : bool.          (* Gen: default of getattr(cls, "decode_into_subclasses", ..) *)
   Variable child_drop : option bool.   (* Gen: drop_extra_fields passed when re-entering from_dict with the chosen subclass
                                           (None = not passed: re-derived from the chosen class's own attribute) *)
+
+  Variable fwd : fwdrule.              (* Gen: decode_field, when drop_extra_fields reaches the decoder of a field *)
+  Variable list_item_drop : option bool.   (* Gen: decode_list, drop_extra_fields given to the item decoder (None = not given) *)
+  Variable dict_value_drop : option bool.  (* Gen: decode_dict, the same for the value decoder *)
+  Variable dc_preset : option bool.    (* Gen: get_decoding_fn, drop_extra_fields preset in partial(from_dict, t, ..) *)
+  Variable item_save : bool.           (* Gen: save_dc_types with which encode() encodes a dataclass it meets in a container *)
+  Variable construct_err : string.     (* Gen: from_dict, class raised when cls(..) fails *)
+  Variable locate_err : string.        (* Gen: _locate, class raised when the name resolves to nothing *)
 
   Variable h : hier.                   (* the classes, registration order *)
   Variable modname : string.           (* module the classes live in: `_type_` holds module + "." + qualname *)
@@ -227,24 +239,29 @@ Section WithFacts.
     | Err e => Err e
     | Ok present =>
         match extras_of c keys with
-        | [] => construct c present
+        | [] => construct construct_err c present
         | extra =>
-            if drop then construct c present
+            if drop then construct construct_err c present
             else match choose (c_name c) (req_names c extra present) with
-                 | None => Err (Raise "RuntimeError")        (* cls(..init_args) with the unknown keys *)
+                 | None => Err (Raise construct_err)         (* cls(..init_args) with the unknown keys *)
                  | Some child =>
                      (* return from_dict(child_class, d, drop_extra_fields=False) *)
                      match collect (c_fields child) (dec (ftype_of child) (resolve_drop (c_name child) child_drop)) with
                      | Err e => Err e
                      | Ok present2 =>
                          match extras_of child keys with
-                         | [] => construct child present2
+                         | [] => construct construct_err child present2
                          | _ => Err OutOfFuel      (* a second search: cannot happen with the >= test (proved) *)
                          end
                      end
                  end
         end
     end.
+
+  (* what reaches a decoder that is called without drop_extra_fields: the preset of partial(from_dict, t, ..) *)
+  Definition unforwarded (o : option bool) : option bool := match o with Some b => Some b | None => dc_preset end.
+  Definition fwd_drop (drop : bool) : option bool :=
+    match fwd with FwdDataclassNotNone => Some drop | FwdNever => unforwarded None end.
 
   Fixpoint from_ser (cls : string) (dropo : option bool) (s : ser) {struct s} : res value :=
     match s with
@@ -254,7 +271,7 @@ Section WithFacts.
         match sf_get TYPE_KEY kvs with
         | Some (SStr t) => match locate t with
                            | Some live => build dec keys live dropo
-                           | None => Err (Raise "ImportError")
+                           | None => Err (Raise locate_err)
                            end
         | Some _ => Err (Raise "AttributeError")
         | None => match find_class h cls with
@@ -273,24 +290,24 @@ Section WithFacts.
         else match ft k with
              | None => rest
              | Some TInt => (k, decode_int s) :: rest
-             | Some (TDc b) => (k, from_ser b (Some drop) s) :: rest      (* decode_field passes drop_extra_fields on *)
+             | Some (TDc b) => (k, from_ser b (fwd_drop drop) s) :: rest   (* decode_field passes drop_extra_fields on *)
              | Some (TList b) =>
                  (k, match s with
-                     | SList items => match seq_items (decode_items b items) with Ok vs => Ok (VList vs) | Err e => Err e end
+                     | SList items => match seq_items (decode_items b (unforwarded list_item_drop) items) with Ok vs => Ok (VList vs) | Err e => Err e end
                      | _ => Err (Raise "TypeError")
                      end) :: rest
              | Some (TDict b) =>
                  (k, match s with
-                     | SMap items => match seq_items (decode_items b items) with Ok vs => Ok (VDict vs) | Err e => Err e end
+                     | SMap items => match seq_items (decode_items b (unforwarded dict_value_drop) items) with Ok vs => Ok (VDict vs) | Err e => Err e end
                      | _ => Err (Raise "AttributeError")
                      end) :: rest
              end
     end
   (* decode_list / decode_dict: the item decoder is get_decoding_fn(B), called WITHOUT drop_extra_fields *)
-  with decode_items (b : string) (items : sfields) {struct items} : list (string * res value) :=
+  with decode_items (b : string) (io : option bool) (items : sfields) {struct items} : list (string * res value) :=
     match items with
     | SNil => []
-    | SCons k s r => (k, from_ser b None s) :: decode_items b r
+    | SCons k s r => (k, from_ser b io s) :: decode_items b io r
     end.
 
   (* to_dict(v, save_dc_types=save).  A dataclass-typed field recurses with the same flag; anything else goes through
@@ -305,7 +322,7 @@ Section WithFacts.
   with fields_ser (save : bool) (fs : vfields) {struct fs} : sfields :=
     match fs with VNil => SNil | VCons k v r => SCons k (to_ser save v) (fields_ser save r) end
   with items_ser (items : vfields) {struct items} : sfields :=
-    match items with VNil => SNil | VCons k v r => SCons k (to_ser false v) (items_ser r) end.
+    match items with VNil => SNil | VCons k v r => SCons k (to_ser item_save v) (items_ser r) end.
 
   (* ---------- well-formedness of the inputs (decidable; evaluated on every generated case) ---------- *)
   Definition fields_sub (a c : cdecl) : bool :=
